@@ -49,6 +49,34 @@ def add_refs(pairs):
     return pairs
 
 
+def name_default(pairs):
+    """call the first rule of each given program `default` (every reference to it too)"""
+    def ren(o, old):
+        if isinstance(o, dict):
+            if o.get("c") == "named" and o.get("n") == old:
+                o["n"] = "default"
+            for v in o.values():
+                ren(v, old)
+        elif isinstance(o, list):
+            for v in o:
+                ren(v, old)
+    for c in pairs:
+        rules = c["prog"]["rules"]
+        if not rules or any(r["n"] == "default" for r in rules):
+            continue
+        old = rules[0]["n"]
+        for r in rules:
+            if r["n"] == old:
+                r["n"] = "default"
+        ren(c["prog"], old)
+    lines = "\n".join(json.dumps({"prog": c["prog"], "doc": None}) for c in pairs)
+    out = gv(["render-many"], input=lines)
+    texts = [json.loads(l)["rules"] for l in out.split("\n") if l.strip()]
+    for c, t in zip(pairs, texts):
+        c["rules"] = t
+    return pairs
+
+
 def split_top(doc, rnd, overlap):
     """split the top-level map of an abstract document into parameter documents + data.
     overlap: False, "pp" (two parameter documents define the same key) or "pd" (a parameter
